@@ -1,10 +1,44 @@
 /-
   Driver ops for C18.
+  `lex`  {"src": hex}                                  → pure lexer on the whole byte string
+  `scan` {"src": hex, "chunks":[n…], "buflen": n, "final": "eof"|"eofdata"|"fail", "failat": k?}
+         → the buffered scanner model under the given reader schedule
+  Output: `ok type:offset:line:col:hextext,…` (type 0 EOF,1 ident,2 int,3 keyword,4 string,5 operator,6 unknown) or `err`.
 -/
 import CedarGo.Driver.Ops.Core
+import CedarGo.Model.Text.Scanner
 namespace CedarGo.Driver
-open Lean CedarGo
+open Lean CedarGo CedarGo.Text
 
-def c18Ops : List (String × Handler) := []
+def tokTypeCode : TokType → Nat
+  | .eof => 0 | .ident => 1 | .int => 2 | .keyword => 3 | .string => 4 | .operator => 5 | .unknown => 6
+
+def showRawTok (t : RawTok) : String :=
+  s!"{tokTypeCode t.ty}:{t.pos.offset}:{t.pos.line}:{t.pos.column}:{hexBytes t.text}"
+
+def showLex : Except LexErr (List RawTok) → String
+  | .ok ts => "ok " ++ ",".intercalate (ts.map showRawTok)
+  | .error .fuel => "model-out-of-fuel"
+  | .error _ => "err"
+
+def opLex : Handler := fun _ j => do
+  let src ← unhexBytes (← jStr (← field j "src"))
+  .ok (showLex (rawTokens src))
+
+/-- chunk sizes must add up to the number of bytes the reader delivers (= |src|, or the failure position) -/
+def opScan : Handler := fun _ j => do
+  let src ← unhexBytes (← jStr (← field j "src"))
+  let sizes ← (← jArr (← field j "chunks")).mapM jNat
+  let bufLen ← jNat (← field j "buflen")
+  let final ← match ← jStr (← field j "final") with
+    | "eof" => pure Final.eof | "eofdata" => pure Final.eofData | "fail" => pure Final.fail
+    | s => throw s!"bad final {s}"
+  if bufLen < 4 then throw "buflen < 4" else
+  let total := sizes.foldl (· + ·) 0
+  if total > src.length then throw "chunks exceed src" else
+  if final != .fail && total != src.length then throw "chunks do not cover src" else
+  .ok (showLex (scan bufLen ⟨chunksOf sizes (src.take total), final⟩))
+
+def c18Ops : List (String × Handler) := [("lex", opLex), ("scan", opScan)]
 
 end CedarGo.Driver
